@@ -9,12 +9,14 @@ from tf_pwa.data import data_split
 def split_gls(dec_chain):
     gls = [i.get_ls_list() for i in dec_chain]
     ls_combination = list(itertools.product(*gls))
-    for i in ls_combination:
-        for gi, j in zip(i, dec_chain):
-            j.set_ls([gi])
-        yield i, dec_chain
-    for j, g in zip(dec_chain, gls):
-        j.set_ls(g)
+    try:
+        for i in ls_combination:
+            for gi, j in zip(i, dec_chain):
+                j.set_ls([gi])
+            yield i, dec_chain
+    finally:
+        for j, g in zip(dec_chain, gls):
+            j.set_ls(g)
 
 
 def build_sum_amplitude(dg, dec_chain, data):
@@ -30,11 +32,13 @@ def build_sum_amplitude(dg, dec_chain, data):
 def build_int_matrix(dec, data, weight=None):
     hij = {}
     used_chains = dec.chains_idx
-    for k, i in enumerate(dec):
-        dec.set_used_chains([k])
-        for j, amp in enumerate(build_sum_amplitude(dec, i, data)):
-            hij[(i, j)] = amp
-    dec.set_used_chains(used_chains)
+    try:
+        for k, i in enumerate(dec):
+            dec.set_used_chains([k])
+            for j, amp in enumerate(build_sum_amplitude(dec, i, data)):
+                hij[(i, j)] = amp
+    finally:
+        dec.set_used_chains(used_chains)
     ret = []
     if weight is None:
         weight = data.get("weight", 1.0)
